@@ -35,6 +35,8 @@ TCP_SAMPLE = {"all": 250, "wf": 150, "mut": 200} if QUICK else {"all": 2000, "wf
 B2_PIPELINES = 60 if QUICK else 2000
 MAX_DEATHS_PER_SLICE = 10 if QUICK else 30
 MAX_TCP_RESTARTS = 30
+MAX_TCP_FAILS = 8            # a failing tree: stop the TCP sample / B2 phases early instead of waiting for hundreds of time-outs
+MAX_B2_FAILS = 3
 AS_LIMIT = 2 << 30           # address-space limit of the respcheck child (a declared bulk length of 2^31 cannot be allocated)
 
 CHILD_ENV = dict(os.environ, GOMAXPROCS="1", GOGC="1000")     # one parser goroutine + one consumer per run: a single P avoids cross-thread wake-ups
@@ -367,7 +369,11 @@ for s in slices:
         pool.append(json.loads(json.loads(l)[4:]))
 rng.shuffle(pool)
 tcp_by_term = {}
+tcp_fails = 0
 for vec in pool:
+    if tcp_fails >= MAX_TCP_FAILS:
+        print("NOTE: TCP sample phase cut short after %d failing vectors" % tcp_fails, flush=True)
+        break
     if label(vec) in confirmed_labels:
         continue          # this class already has a confirmed crash; do not restart the server for every sibling
     if live.restarts > MAX_TCP_RESTARTS:
@@ -377,6 +383,7 @@ for vec in pool:
     tcp_checks += 1
     tcp_by_term[vec["t"]] = tcp_by_term.get(vec["t"], 0) + 1
     if res:
+        tcp_fails += 1
         if res[0] in ("panic", "hang"):
             tcp_confirmed += 1
             confirmed_labels.add(label(vec))
@@ -473,7 +480,7 @@ def b2_pipeline(r, n_id):
     def reader():
         try:
             for _ in want:
-                got.append(c.read_reply(timeout=15.0))
+                got.append(c.read_reply(timeout=8.0))
         except Exception as e:
             err.append(repr(e))
 
@@ -483,7 +490,7 @@ def b2_pipeline(r, n_id):
         send_chunked(c.s, data, r)
     except OSError as e:
         err.append("send: " + repr(e))
-    th.join(40.0)
+    th.join(30.0)
     c.close()
     if th.is_alive():
         err.append("reader stuck")
@@ -499,10 +506,16 @@ def b2_pipeline(r, n_id):
 
 
 r2 = random.Random(SEED * 104729 + 5)
+b2_done = 0
 for i in range(B2_PIPELINES):
+    if b2_fail >= MAX_B2_FAILS:
+        print("NOTE: B2 phase cut short after %d failing pipelines" % b2_fail, flush=True)
+        break
+    b2_done += 1
     f = b2_pipeline(r2, i)
     bad = live.check()
     if bad:
+        b2_fail += 1
         v.report({"branch": "resp.pipeline.tcp", "kind": bad[0], "detail": bad[1]}, {"seed": SEED, "pipeline": i, "tcp": bad[2], "first": f},
                  what="random binary pipeline #%d (seed %d): %s" % (i, SEED, bad[2]))
         live.restart()
@@ -540,7 +553,7 @@ cov = {"states": mc.distinct, "transitions": mc.generated, "traces_validated_aga
        "crashers": tot["deaths"], "crasher_signatures": sorted("%s | %s" % k for k in crashers), "hangs": tot["hangs"], "watchdog_expiries_not_repeated_on_retry": tot["stalls"],
        "slices_cut_short": len(truncated), "in_process_deaths_not_reproduced_over_tcp": notes,
        "tcp_checks": tcp_checks, "tcp_checks_by_term": tcp_by_term, "tcp_confirmed_crashes": tcp_confirmed, "tcp_server_restarts": live.restarts,
-       "b2_pipelines": B2_PIPELINES, "b2_commands": b2_cmds, "b2_bytes": b2_bytes, "b2_failures": b2_fail,
+       "b2_pipelines": b2_done, "b2_commands": b2_cmds, "b2_bytes": b2_bytes, "b2_failures": b2_fail,
        "wall_split_s": {"build": round(t_build, 1), "tlc+respcheck": round(t_b1, 1), "tcp": round(t_tcp, 1), "b2": round(t_b2, 1)}}
 v.finish(tier, "model_checking", cov, [
     "reference decoder = spec/RespParser.tla DecodeAll; Exactness and agreement with the chunked state machine are checked by TLC",
